@@ -43,14 +43,18 @@ fn json_config(compact: bool) -> Config {
 
 /// Give every resource and dataset its own stand-off file name (relative to the store's directory)
 fn make_standoff(store: &mut AnnotationStore, what: &str) {
-    if what == "resources" || what == "both" {
+    if what == "resources" || what == "both" || what == "resjson" {
         for i in 0..store.resources_len() {
             let r: Result<&mut TextResource, _> = store.get_mut(TextResourceHandle::new(i));
             if let Ok(r) = r {
                 if r.filename().is_some() || r.textlen() == 0 {
                     continue; // already stand-off (renaming an unchanged stand-off file is not a round trip), or never had content
                 }
-                r.set_filename(&format!("res{}.txt", i));
+                if what == "resjson" {
+                    r.set_filename(&format!("res{}.resource.stam.json", i));
+                } else {
+                    r.set_filename(&format!("res{}.txt", i));
+                }
             }
         }
     }
